@@ -28,23 +28,47 @@ def _seq_parts(I, labels):
 
 
 # wirelen(labels, j) = sum_{k<j} (len(labels[k]) + 1) --------------------------------------
-WIRELEN = z3.Function("wirelen", ARR_BYTES, S.IntS, S.IntS, S.IntS)  # (arr, off, j)
+# encoded as W(arr, lo, hi): the sum over array indices lo <= k < hi, so that slices of a tuple
+# (same array, shifted offset) share one function.  Facts instantiated at the terms that occur:
+# unfolding at either end, non-negativity, and additivity W(a,c) = W(a,b) + W(b,c) between
+# terms over the same array (L-sum: additivity of a finite sum, by induction on the length).
+WIRELEN = z3.Function("wirelen", ARR_BYTES, S.IntS, S.IntS, S.IntS)  # (arr, lo, hi)
 
 
-def _wirelen_unfold(I, arr, off, j):
-    t = WIRELEN(arr, off, j)
-    I.path.assume(t == z3.If(j <= 0, 0, WIRELEN(arr, off, j - 1) + z3.Length(z3.Select(arr, off + j - 1)) + 1))
-    I.path.assume(t >= 0)
-    I.path.assume(z3.Implies(j >= 0, t >= j))
+def _w_raw(I, arr, lo, hi):
+    t = WIRELEN(arr, lo, hi)
+    I.path.assume(z3.And(t >= 0, z3.Implies(hi <= lo, t == 0)))
+    return t
+
+
+def _w_term(I, arr, lo, hi, unfold=True):
+    lo, hi = simp(lo), simp(hi)
+    t = _w_raw(I, arr, lo, hi)
+    seen = I.path.__dict__.setdefault("_wterms", [])
+    key = (arr.get_id(), lo.get_id(), hi.get_id())
+    if any(k == key for k, _ in seen):
+        return t
+    seen.append((key, (arr, lo, hi)))
+    if unfold:
+        el_hi = z3.Length(z3.Select(arr, hi - 1)) + 1
+        el_lo = z3.Length(z3.Select(arr, lo)) + 1
+        I.path.assume(z3.Implies(hi > lo, t == _w_raw(I, arr, lo, simp(hi - 1)) + el_hi))
+        I.path.assume(z3.Implies(hi > lo, t == el_lo + _w_raw(I, arr, simp(lo + 1), hi)))
+    for k2, (arr2, a, b) in seen[:-1][-4:]:
+        if k2[0] != key[0]:
+            continue
+        # additivity instances between [lo,hi) and [a,b)
+        I.path.assume(z3.Implies(z3.And(lo <= a, a <= b, b <= hi),
+                                 t == _w_raw(I, arr, lo, a) + WIRELEN(arr, a, b) + _w_raw(I, arr, b, hi)))
+        I.path.assume(z3.Implies(z3.And(a <= lo, lo <= hi, hi <= b),
+                                 WIRELEN(arr, a, b) == _w_raw(I, arr, a, lo) + t + _w_raw(I, arr, hi, b)))
     return t
 
 
 def wirelen_smt(I, labels, j):
     arr, off, n = _seq_parts(I, labels)
     jz = to_z3(j)
-    t = _wirelen_unfold(I, arr, off, jz)
-    # second unfolding step towards j-1 (fuel 2) helps preservation proofs
-    _wirelen_unfold(I, arr, off, simp(jz - 1))
+    t = _w_term(I, arr, off, off + jz)
     return SInt(t)
 
 
